@@ -56,6 +56,13 @@ func (m *expirationMap[_]) add(key, conflict uint64, expiration time.Time) {
 	m.Lock()
 	defer m.Unlock()
 
+	// The insert may be applied long after the Set call. Never file an entry
+	// under a bucket the sweep has already passed: it would never be looked at
+	// again and the expired entry would hold its capacity forever.
+	if bucketNum <= m.lastCleanedBucketNum {
+		bucketNum = m.lastCleanedBucketNum + 1
+	}
+
 	b, ok := m.buckets[bucketNum]
 	if !ok {
 		b = make(bucket)
